@@ -285,6 +285,35 @@ class Gen:
         prog['routines'].append(sig)
 
 
+def rearm_program(rng, rt=False):
+    """A debounce / watchdog program: one routine re-arms a pending watchdog
+    routine 35-90 times (each `clock.sched(D, watchdog)` moves the pending entry
+    and leaves a stale one behind in a lazy-deletion queue) while 8-24 voices with
+    scattered deltas keep the queue populated.  Every resumption is judged by the
+    ordinary shadow expectation; the stale entries outnumber the live ones."""
+    ci = rng.choice([SYS, SYS, 0])
+    clocks = [{'kind': 'tempo', 'tempo': rng.choice([1, 2, 4] if rt else TEMPOS)}] if ci == 0 else []
+    u = 1 / 1024
+    nv = rng.randint(8, 24)
+    n = rng.randint(35, 90)
+    step = rng.choice([1, 1, 2]) * u * (1 if rt else rng.choice([1, 16, 256]))
+    D = step * rng.choice([8, 20, 64])
+    wd = {'id': 0, 'clock': ci, 'free': True, 'seed': None,
+          'body': [['y', D], ['y', step]]}
+    voices = []
+    for k in range(nv):
+        body = [['y', step * rng.choice([0, 1, 2, 3, 5, 7, 11, 13, 29])]
+                for _ in range(rng.randint(3, 9))]
+        voices.append({'id': 1 + k, 'clock': ci, 'free': True, 'seed': None, 'body': body})
+    body = []
+    for _ in range(n):
+        body.append(['resched', 0, D])
+        body.append(['y', step * rng.choice([1, 1, 1, 2, 0])])
+    inp = {'id': nv + 1, 'clock': ci, 'free': True, 'seed': None, 'body': body}
+    order = voices[: nv // 2] + [inp] + voices[nv // 2:]
+    return {'clocks': clocks, 'routines': [wd] + order, 'nconds': 0, 'nflows': 0}
+
+
 def features_of(prog):
     out = set()
 
